@@ -611,6 +611,16 @@ class Tensor:
     def clamp(self, min=None, max=None):  # noqa: A002
         return clamp(self, min, max)
 
+    @property
+    def real(self):
+        return real(self) if self.dtype.is_complex else self
+
+    @property
+    def imag(self):
+        if not self.dtype.is_complex:
+            raise RuntimeError('imag is not implemented for tensors with non-complex dtypes.')
+        return imag(self)
+
     def topk(self, k, dim=-1, largest=True, sorted=True):  # noqa: A002
         return topk(self, k, dim, largest, sorted)
 
